@@ -214,13 +214,26 @@ def check_from_list(case, ev):
     for name, cls_, exp in (("integer_ndarray.from_list", pnd.integer_ndarray, exp_i),
                             ("boolean_ndarray.from_list", pnd.boolean_ndarray, exp_b)):
         arg = [list(r) for r in lst] if nested else list(lst)
+        ctx_arg = list(ctx)
+        if case.get("ctx_forms"):
+            def carrier(i, f, salt):
+                if f == 0 or isinstance(i, list):
+                    return i
+                return puan.variable(i, (0, 1)) if f == 1 else puan.variable(i, (-1 - salt % 3, 2 + salt % 5))
+            ctx_arg = [carrier(i, f, j) for j, (i, f) in enumerate(zip(ctx, case["ctx_forms"]))]
+            lf = case["lst_forms"]
+            if nested:
+                arg = [[carrier(i, lf[(j + k) % len(lf)], j + k + 1) for j, i in enumerate(r)] for k, r in enumerate(lst)]
+            else:
+                arg = [carrier(i, lf[j % len(lf)], j + 1) for j, i in enumerate(lst)]
+            name = name + " (ids carried by puan.variable objects)"
         # boolean_ndarray.from_list also takes its rows as tuples (its code says so explicitly; itertools.combinations
         # and dict items produce such rows); a flat list may be handed over as a tuple as well when its first id is not one
         if cls_ is pnd.boolean_ndarray and (len(str(lst)) + len(ctx)) % 3 == 0:
             if nested:
                 arg = [tuple(r) for r in lst]
                 name = name + " (tuple rows)"
-        r = call(cls_.from_list, arg, list(ctx), what=name)
+        r = call(cls_.from_list, arg, ctx_arg, what=name)
         got_shape = tuple(int(x) for x in np.shape(r))
         got = np.asarray(r).tolist()
         if got_shape != shape:
@@ -234,7 +247,7 @@ def check_from_list(case, ev):
     listed = any(any(row) for row in exp_b)
     unlisted = any(not all(row) for row in exp_b)
     reordered = any([v for v in row if v] != sorted(v for v in row if v) for row in exp_i)
-    cls = ["nested" if nested else "flat"]
+    cls = ["nested" if nested else "flat"] + (["ids_in_variable_objects"] if case.get("ctx_forms") else [])
     if unknown:
         cls.append("unknown_id")
     if reordered:
@@ -450,7 +463,13 @@ def from_list_case(draw):
         lst = [one() for _ in range(draw(st.integers(1, 4)))]
     else:
         lst = one()
-    return {"context": ctx, "lst": lst}
+    case = {"context": ctx, "lst": lst}
+    if draw(st.integers(0, 3)) == 0:
+        # ids handed over inside puan.variable objects (polyhedron.variables as context, variables picked from another
+        # array as list): 0 = the raw id, 1 = a boolean variable with that id, 2 = a variable with that id and other bounds
+        case["ctx_forms"] = draw(st.lists(st.integers(0, 2), min_size=len(ctx), max_size=len(ctx)))
+        case["lst_forms"] = draw(st.lists(st.integers(0, 2), min_size=8, max_size=8))
+    return case
 
 
 @st.composite
